@@ -517,6 +517,22 @@ def run(ctx):
             chk.unrecognised("R01.7", "append", "append_after_iter does not store new ++ old or old ++ new: %s" % seqs[:3], loc(aa[0]["span"]))
     else:
         chk.violation("R01.7", "anchor:append", "UnaryOp::append_after_iter not found")
+    # constructors keep the order they are given (the producers yield outermost first)
+    for cname in ("from_iter", "from_vec"):
+        cs = fb.find_bodies(lambda b, cname=cname: b["kind"] == "AssocFn" and b.get("name") == cname and (b.get("impl_self_ty") or "").startswith("operators::UnaryOp<"))
+        if len(cs) != 1:
+            continue
+        allp = Interp(fb, PSeq()).run(cs[0], [Sym("given")])
+        ps = [p for p in allp if p.status not in ("unreachable", "loop-pruned")]
+        okc = bool(ps)
+        for p in ps:
+            r = p.result
+            fld = r.fields.get("funcs_to_be_composed") if isinstance(r, Variant) else None
+            if p.status != "return" or fld is None or loops.seq_parts(fld, p, cs[0]["path"], 0, allp) != [("src", "given", "fwd")]:
+                okc = False
+        bits["%s keeps the given order" % cname] = okc
+        if not okc:
+            chk.violation("R01.7", "constructor:%s" % cname, "UnaryOp::%s does not store the functions in the order it is given (the parsers hand them over outermost first, the order apply / append_after / the printer assume)" % cname, loc(cs[0]["span"]))
     up = fb.find_bodies(lambda b: b["path"].endswith("deep::detail::unparse_raw"))
     if len(up) == 1:
         tys = " ".join(l["ty"] for l in up[0]["locals"])
@@ -525,6 +541,8 @@ def run(ctx):
         bits["unparse prints stored order left to right"] = not fold_rev
     else:
         chk.violation("R01.7", "anchor:unparse", "unparse_raw not found")
+    cons = {k: v for k, v in bits.items() if k.endswith("keeps the given order")}
+    bits = {k: v for k, v in bits.items() if k not in cons}
     if bits:
         if all(bits.values()):
             chk.ok("R01.7", "composition direction sites agree", str(bits))
